@@ -207,7 +207,8 @@ SET_OF_decode_ber(const asn_codec_ctx_t *opt_codec_ctx,
 		 * Invoke the member fetch routine according to member's type
 		 */
 		rval = elm->type->op->ber_decoder(opt_codec_ctx,
-				elm->type, &ctx->ptr, ptr, LEFT, 0);
+				elm->type, &ctx->ptr, ptr, LEFT,
+				elm->tag_mode);
 		ASN_DEBUG("In %s SET OF %s code %d consumed %d",
 			td->name, elm->type->name,
 			rval.code, (int)rval.consumed);
@@ -366,7 +367,8 @@ SET_OF__encode_sorted(const asn_TYPE_member_t *elm,
 		 */
         switch(method) {
         case SOES_DER:
-            erval = elm->type->op->der_encoder(elm->type, memb_ptr, 0, elm->tag,
+            erval = elm->type->op->der_encoder(elm->type, memb_ptr,
+                                               elm->tag_mode, elm->tag,
                                                _el_addbytes, encoding_el);
             break;
         case SOES_CUPER:
@@ -433,8 +435,8 @@ SET_OF_encode_der(const asn_TYPE_descriptor_t *td, const void *sptr,
 
         if(!memb_ptr) ASN__ENCODE_FAILED;
 
-        erval =
-            elm->type->op->der_encoder(elm->type, memb_ptr, 0, elm->tag, 0, 0);
+        erval = elm->type->op->der_encoder(elm->type, memb_ptr,
+                                           elm->tag_mode, elm->tag, 0, 0);
         if(erval.encoded == -1) return erval;
         computed_size += erval.encoded;
 	}
